@@ -24,6 +24,9 @@ pub struct Case {
     /// the stub with structural sharing and flyweight constants
     #[serde(default)]
     pub shared: bool,
+    /// the stub with every object's members in an order of its own (seed); results compared as multisets
+    #[serde(default)]
+    pub shuffled: Option<u64>,
 }
 
 #[derive(Clone, Debug, Serialize, Deserialize)]
@@ -131,6 +134,30 @@ pub fn eval_shared(doc: &ShareDoc, p: Personality, q: &str) -> Canon {
     }
 }
 
+/// Order-insensitive comparison, for a stub whose member order differs from Value's: the same
+/// (path, value) pairs with the same multiplicities.
+pub fn compare_multiset(want: &Canon, got: &Canon) -> Option<Diff> {
+    match (want, got) {
+        (Ok(w), Ok(g)) => {
+            let key = |x: &(String, String, Value)| (x.1.clone(), x.2.to_string());
+            let mut a: Vec<(String, String)> = w.iter().map(key).collect();
+            let mut b: Vec<(String, String)> = g.iter().map(key).collect();
+            a.sort();
+            b.sort();
+            if g.iter().any(|x| x.0 == "FOREIGN") {
+                return Some(Diff { class: "foreign-reference".into(), detail: "a result is not a reference into the document that was passed in".into() });
+            }
+            if a != b {
+                let only_v: Vec<&(String, String)> = a.iter().filter(|x| !b.contains(x)).take(3).collect();
+                let only_s: Vec<&(String, String)> = b.iter().filter(|x| !a.contains(x)).take(3).collect();
+                return Some(Diff { class: "set-differs".into(), detail: format!("as multisets of (path, value): Value has {} results, the member-order-shuffled implementation {}; only over Value: {:?}; only over the stub: {:?}", a.len(), b.len(), only_v, only_s) });
+            }
+            None
+        }
+        _ => compare(want, got),
+    }
+}
+
 pub fn compare(want: &Canon, got: &Canon) -> Option<Diff> {
     match (want, got) {
         (Err(a), Err(b)) => {
@@ -168,6 +195,13 @@ pub fn compare(want: &Canon, got: &Canon) -> Option<Diff> {
 pub fn check_case(c: &Case) -> Option<Diff> {
     let want = eval_value(&c.doc, &c.query);
     let mut locs = HashMap::new();
+    if let Some(seed) = c.shuffled {
+        let sd: SimDoc = SimDoc::from_value_shuffled(&c.doc, seed);
+        let mut locs = HashMap::new();
+        sim_locs(&sd, &mut vec![], &mut locs);
+        let got = eval_sim(&sd, &locs, Personality(c.personality), &c.query);
+        return compare_multiset(&want, &got.canon);
+    }
     if c.shared {
         let sd = ShareDoc::from_value(&c.doc);
         let got = eval_shared(&sd, Personality(c.personality), &c.query);
@@ -228,7 +262,7 @@ fn shrink_doc(c: &Case, class: &str) -> Case {
         rounds += 1;
         let mut progressed = false;
         for d in cands(&cur.doc) {
-            let cand = Case { personality: cur.personality, doc: d, query: cur.query.clone(), fat: cur.fat, shared: cur.shared };
+            let cand = Case { personality: cur.personality, doc: d, query: cur.query.clone(), fat: cur.fat, shared: cur.shared, shuffled: cur.shuffled };
             if check_case(&cand).map(|x| x.class == class).unwrap_or(false) {
                 cur = cand;
                 progressed = true;
@@ -243,7 +277,7 @@ fn shrink_doc(c: &Case, class: &str) -> Case {
     for _ in 0..40 {
         let mut progressed = false;
         for q in gen::shrink_query(&cur.query) {
-            let cand = Case { personality: cur.personality, doc: cur.doc.clone(), query: q, fat: cur.fat, shared: cur.shared };
+            let cand = Case { personality: cur.personality, doc: cur.doc.clone(), query: q, fat: cur.fat, shared: cur.shared, shuffled: cur.shuffled };
             if check_case(&cand).map(|x| x.class == class).unwrap_or(false) {
                 cur = cand;
                 progressed = true;
@@ -257,7 +291,7 @@ fn shrink_doc(c: &Case, class: &str) -> Case {
     for _ in 0..100 {
         let mut progressed = false;
         for d in cands(&cur.doc) {
-            let cand = Case { personality: cur.personality, doc: d, query: cur.query.clone(), fat: cur.fat, shared: cur.shared };
+            let cand = Case { personality: cur.personality, doc: d, query: cur.query.clone(), fat: cur.fat, shared: cur.shared, shuffled: cur.shuffled };
             if check_case(&cand).map(|x| x.class == class).unwrap_or(false) {
                 cur = cand;
                 progressed = true;
@@ -270,7 +304,7 @@ fn shrink_doc(c: &Case, class: &str) -> Case {
     }
     // a plainer stub that still shows it
     if cur.fat || cur.shared {
-        let cand = Case { personality: cur.personality, doc: cur.doc.clone(), query: cur.query.clone(), fat: false, shared: false };
+        let cand = Case { personality: cur.personality, doc: cur.doc.clone(), query: cur.query.clone(), fat: false, shared: false, shuffled: cur.shuffled };
         if check_case(&cand).map(|x| x.class == class).unwrap_or(false) {
             cur = cand;
         }
@@ -278,7 +312,7 @@ fn shrink_doc(c: &Case, class: &str) -> Case {
     // a simpler personality that still shows it
     for bit in [4u8, 2, 1] {
         if cur.personality & bit != 0 {
-            let cand = Case { personality: cur.personality & !bit, doc: cur.doc.clone(), query: cur.query.clone(), fat: cur.fat, shared: cur.shared };
+            let cand = Case { personality: cur.personality & !bit, doc: cur.doc.clone(), query: cur.query.clone(), fat: cur.fat, shared: cur.shared, shuffled: cur.shuffled };
             if check_case(&cand).map(|x| x.class == class).unwrap_or(false) {
                 cur = cand;
             }
@@ -305,6 +339,7 @@ struct FamOut {
     evals: u64,
     fat_evals: u64,
     shared_evals: u64,
+    shuffled_evals: u64,
     nonempty: u64,
     shapes: BTreeSet<(u8, u64)>,
     counts: [u64; simdoc::N_ACC],
@@ -317,7 +352,7 @@ struct FamOut {
 }
 
 fn run_family(seed: u64, f: u64, q_per_fam: usize) -> FamOut {
-    let mut out = FamOut { evals: 0, fat_evals: 0, shared_evals: 0, nonempty: 0, shapes: BTreeSet::new(), counts: [0; simdoc::N_ACC], by_pers: [0; 8], errs: 0, first: None, n_viol: 0, sample: None, classes: BTreeMap::new() };
+    let mut out = FamOut { evals: 0, fat_evals: 0, shared_evals: 0, shuffled_evals: 0, nonempty: 0, shapes: BTreeSet::new(), counts: [0; simdoc::N_ACC], by_pers: [0; 8], errs: 0, first: None, n_viol: 0, sample: None, classes: BTreeMap::new() };
     let mut rng = Rng::new(derive(seed, "c15fam", f));
     let p = match f % 11 {
         3 => DocParams { max_nodes: 60 + rng.below(60), max_depth: 2 + rng.below(2), names: gen::NAMES_C15, max_width: 14, long_arrays: true },
@@ -356,7 +391,7 @@ fn run_family(seed: u64, f: u64, q_per_fam: usize) -> FamOut {
         queries.push(if rng.chance(1, 12) { gen::invalidate(&mut rng, &q) } else { q });
     }
     if f % 6 == 1 {
-        for q in ["$..[?count(@.*) == 4]", "$.jobs[?count(@.*) >= 3]", "$[?count(@..*) > 10]", "$..[?count(@[*]) == 2]", "$..[?count(@.*) == 2]", "$.jobs[?count(@['on','off','none']) == 3]", "$[?count(@.*) != count(@..*)]"] {
+        for q in ["$..[?count(@.*) == 4]", "$.jobs[?count(@.*) >= 3]", "$[?count(@..*) > 10]", "$..[?count(@[*]) == 2]", "$..[?count(@.*) == 2]", "$.jobs[?count(@['on','off','none']) == 3]", "$[?count(@.*) != count(@..*)]", "$.jobs[?@.cfg == $.dflt]", "$.jobs[?@.cfg != $.dflt]", "$[?@ == $.dflt]", "$.jobs[?@ == $.jobs[0]]", "$.jobs[?@.cfg == @.cfg]", "$..[?@ == $.flags]"] {
             queries.push(q.to_string());
         }
     }
@@ -369,6 +404,10 @@ fn run_family(seed: u64, f: u64, q_per_fam: usize) -> FamOut {
         let sd = SimDoc::from_value(d);
         let mut locs = HashMap::new();
         sim_locs(&sd, &mut vec![], &mut locs);
+        let shuf_seed = derive(seed, "c15shuffle", f);
+        let shuf: SimDoc = SimDoc::from_value_shuffled(d, shuf_seed);
+        let mut shlocs = HashMap::new();
+        sim_locs(&shuf, &mut vec![], &mut shlocs);
         let fd = FatDoc::from_value(d);
         let mut flocs = HashMap::new();
         sim_locs(&fd, &mut vec![], &mut flocs);
@@ -376,6 +415,21 @@ fn run_family(seed: u64, f: u64, q_per_fam: usize) -> FamOut {
             let want = eval_value(d, q);
             if want.is_err() {
                 out.errs += 1;
+            }
+            // the member-order-shuffled stub (multiset comparison), under the two extreme personalities
+            if f % 3 == 1 {
+                for pers in [0u8, 7] {
+                    let got = eval_sim(&shuf, &shlocs, Personality(pers), q);
+                    out.evals += 1;
+                    out.shuffled_evals += 1;
+                    if let Some(diff) = compare_multiset(&want, &got.canon) {
+                        out.n_viol += 1;
+                        *out.classes.entry(diff.class.clone()).or_insert(0) += 1;
+                        if out.first.is_none() {
+                            out.first = Some((f, Case { personality: pers, doc: d.clone(), query: q.clone(), fat: false, shared: false, shuffled: Some(shuf_seed) }, diff));
+                        }
+                    }
+                }
             }
             // the sharing stub, under the two extreme personalities
             if f % 2 == 1 {
@@ -388,7 +442,7 @@ fn run_family(seed: u64, f: u64, q_per_fam: usize) -> FamOut {
                         out.n_viol += 1;
                         *out.classes.entry(diff.class.clone()).or_insert(0) += 1;
                         if out.first.is_none() {
-                            out.first = Some((f, Case { personality: pers, doc: d.clone(), query: q.clone(), fat: false, shared: true }, diff));
+                            out.first = Some((f, Case { personality: pers, doc: d.clone(), query: q.clone(), fat: false, shared: true, shuffled: None }, diff));
                         }
                     }
                 }
@@ -402,7 +456,7 @@ fn run_family(seed: u64, f: u64, q_per_fam: usize) -> FamOut {
                     out.n_viol += 1;
                     *out.classes.entry(diff.class.clone()).or_insert(0) += 1;
                     if out.first.is_none() {
-                        out.first = Some((f, Case { personality: pers, doc: d.clone(), query: q.clone(), fat: true, shared: false }, diff));
+                        out.first = Some((f, Case { personality: pers, doc: d.clone(), query: q.clone(), fat: true, shared: false, shuffled: None }, diff));
                     }
                 }
             }
@@ -423,7 +477,7 @@ fn run_family(seed: u64, f: u64, q_per_fam: usize) -> FamOut {
                     out.n_viol += 1;
                     *out.classes.entry(diff.class.clone()).or_insert(0) += 1;
                     if out.first.is_none() {
-                        out.first = Some((f, Case { personality: pers, doc: d.clone(), query: q.clone(), fat: false, shared: false }, diff));
+                        out.first = Some((f, Case { personality: pers, doc: d.clone(), query: q.clone(), fat: false, shared: false, shuffled: None }, diff));
                     }
                 } else if out.sample.is_none() && pers == 7 {
                     if let Ok(v) = &got.canon {
@@ -468,6 +522,7 @@ pub fn drive(tier_name: &str, seed: u64, workers: usize) -> i32 {
     let mut evals = 0u64;
     let mut fat_evals = 0u64;
     let mut shared_evals = 0u64;
+    let mut shuffled_evals = 0u64;
     let mut nonempty = 0u64;
     let mut shapes: BTreeSet<(u8, u64)> = BTreeSet::new();
     let mut counts = [0u64; simdoc::N_ACC];
@@ -481,6 +536,7 @@ pub fn drive(tier_name: &str, seed: u64, workers: usize) -> i32 {
         evals += o.evals;
         fat_evals += o.fat_evals;
         shared_evals += o.shared_evals;
+        shuffled_evals += o.shuffled_evals;
         nonempty += o.nonempty;
         shapes.extend(o.shapes);
         for i in 0..simdoc::N_ACC {
@@ -598,7 +654,7 @@ pub fn drive(tier_name: &str, seed: u64, workers: usize) -> i32 {
             "personality_bits": "bit0: as_f64 is None for integers; bit1: Default::default() is a sentinel string; bit2: Debug is opaque",
             "how_to_replay": "./check C15 --replay <this file>"});
         let p = report::write_replay("C15", &format!("seed{}-fam{}", seed, f), &body);
-        println!("violation class={} personality={}{} query={} document={} — {}", d2.class, min.personality, if min.fat { " (large node type)" } else if min.shared { " (sharing stub)" } else { "" }, min.query, min.doc.to_string().chars().take(600).collect::<String>(), d2.detail);
+        println!("violation class={} personality={}{} query={} document={} — {}", d2.class, min.personality, if min.fat { " (large node type)" } else if min.shared { " (sharing stub)" } else if min.shuffled.is_some() { " (member order shuffled; multiset comparison)" } else { "" }, min.query, min.doc.to_string().chars().take(600).collect::<String>(), d2.detail);
         report::print_violation("C15", &p);
         replay_path = Some(p);
         exit = 1;
@@ -645,6 +701,7 @@ pub fn drive(tier_name: &str, seed: u64, workers: usize) -> i32 {
         "single_threaded_evaluations": evals,
         "evaluations_over_the_large_node_type": fat_evals,
         "evaluations_over_the_sharing_stub": shared_evals,
+        "evaluations_over_the_member_order_shuffled_stub": shuffled_evals,
         "node_sizes_in_bytes": {"serde_json::Value": std::mem::size_of::<Value>(), "SimDoc": std::mem::size_of::<SimDoc>(), "FatDoc": std::mem::size_of::<FatDoc>()},
         "evaluations_with_non_empty_result": nonempty,
         "value_side_errors": errs,
